@@ -860,7 +860,8 @@ pub fn run(args: &Args, rec: &mut Recorder) {
         if rng.chance(1, 4) {
             let inc_text = "struct inc_t { uint; ulong; };\n";
             let quoted = rng.coin();
-            let name = "sub/types.aml";
+            // (a name with "/end" in it: the raw A2ML text ends at /end A2ML, not at any /end...)
+            let name = *rng.pick(&["sub/types.aml", "sub/endian.aml", "end/types.aml"]);
             let directive = if quoted { format!("/include \"{name}\"") } else { format!("/include {name}") };
             let a2ml_text = format!("\n {directive}\n block \"IF_DATA\" taggedunion {{ \"INCX\" struct inc_t; }};\n");
             let mut a2ml = Elem::new("A2ML", true, false);
